@@ -11,6 +11,10 @@ configuration of a stated finite product
     x the 4 enable/disable flag combinations of ``ToCoverConfiguration``
     x every (only_cover, no_cover) pair of subsets of the module's <= 3 scope names (conflicting ones too)
 
+(quick: <= 1 marker x flags, and <= 1 marker x lists, for the hand-written modules and progen size <= 2; thorough:
+the full three-way product for <= 1 marker plus exactly-2-marker placements x flags and x lists for those modules,
+and <= 1 marker x flags plus the lists alone for progen size 3 -- see ``config_plan`` / ``mode_for``)
+
 the marked source is imported through the REAL import hook (``install_import_hook`` ->
 ``InstrumentationFinder`` -> ``InstrumentationLoader`` -> ``InstrumentationTransformer``) for BRANCH+LINE
 and the registries (line goals, predicates, code objects) are read.  The oracle is
